@@ -4,6 +4,7 @@ import Arc.Model.C02
 Model driver for C02. One op per line:
 
     dec <hex body>      → `T=<typed fast path: miss | hit{rec}> G=<generic path outcome>`
+    wal <hex body>      → `on=<WAL record with the fast path on> off=<… off>` (typed hits only)
 
 `T` is `tryDecodeColumnarTyped` alone, `G` is `Decode` with the fast path off followed by
 `convertColumnsToTyped` for every columnar record. Generated time columns carry `now` = the virtual clock the harness sets (1 700 000 000 000 000 µs);
@@ -112,6 +113,17 @@ def step (s : Unit) (fs : List String) : Unit × String :=
         | some r => "hit" ++ recStr r
         | none => "miss"
       (s, "T=" ++ t ++ " G=" ++ outcomeStr (genericPath ieee sanitizeUTF8 now b))
+    | none => (s, "bad-op")
+  | ["wal", h] =>
+    -- WAL record of the write, issued by the harness for typed hits only
+    match unhex h with
+    | some b =>
+      let f : WalRec → String
+        | .raw p => "raw:" ++ hex p
+        | .rows => "rows"
+      match typedPath ieee sanitizeUTF8 now b with
+      | some _ => (s, "on=" ++ f (walTyped b) ++ " off=" ++ f (walGeneric b))
+      | none => (s, "miss")
     | none => (s, "bad-op")
   | _ => (s, "bad-op")
 
